@@ -40,7 +40,7 @@ def vec(v, ctype=float):
     return G.Vector(conv(v[0], ctype), conv(v[1], ctype), conv(v[2], ctype))
 
 
-def build(o, ctype=float, form=0):
+def _build_raw(o, ctype=float, form=0):
     """construct the library object for an exact descriptor through the public constructors.
     form selects among equivalent constructor forms / argument orders where they exist:
       Line: 0 (Point, Vector) 1 (Point, Point) 2 (Vector, Vector)
@@ -100,6 +100,22 @@ def build(o, ctype=float, form=0):
     raise ValueError(k)
 
 
+def build(o, ctype=float, form=0):
+    """guarded construction: the descriptors handed to build() are valid by exact construction, so a constructor
+    that raises is a failure of whatever property is being checked (its operands cannot even be formed); it is
+    reported as a Fail, never as a harness error"""
+    from .engine import Fail
+
+    try:
+        return _build_raw(o, ctype, form)
+    except Exception as e:  # noqa
+        raise Fail(
+            "constructing a valid %s (form %d, %s coordinates) raises %s" % (o[0], form, getattr(ctype, "__name__", ctype), exc_sig(e)),
+            {"operand": o, "error": repr(e)},
+            {"constructor": True},
+        )
+
+
 CT = {"f": float, "i": int}
 DEFAULT_VAR = ("f", 0, "f", 0)
 
@@ -108,19 +124,7 @@ def build_var(a, b, var):
     """build an operand pair under a variant (ctype_a, form_a, ctype_b, form_b).  The descriptors are valid
     by construction, so a constructor that raises is itself a failure of the property under test (its
     operands cannot even be formed) and is reported as such, not as a harness error."""
-    from .engine import Fail
-
-    out = []
-    for o, ct, form in ((a, var[0], var[1]), (b, var[2], var[3])):
-        try:
-            out.append(build(o, CT[ct], form))
-        except Exception as e:  # noqa
-            raise Fail(
-                "constructing a valid %s operand (form %d, %s coordinates) raises %s" % (o[0], form, ct, exc_sig(e)),
-                {"operand": o, "error": repr(e)},
-                {"constructor": True},
-            )
-    return out[0], out[1]
+    return build(a, CT[var[0]], var[1]), build(b, CT[var[2]], var[3])
 
 
 def _xyz(p):
@@ -273,8 +277,12 @@ def same_set(e, g, tol=TOL):
 
 def call(fn, *args):
     """call into the library; returns ('ok', value) or ('raise', exception)"""
+    from .engine import Fail
+
     try:
         return "ok", fn(*args)
+    except Fail:
+        raise
     except Exception as e:  # noqa: the library's failure is data for the oracle
         return "raise", e
 
